@@ -61,6 +61,7 @@ def _validate_file(ctx, path, chunk, label, timeout=1500):
     if cur:
         chunks.append(cur)
     res = {"viol": [], "drift": [], "events": n, "runs": n, "chunks": len(chunks)}
+    log("t=%.0fs %s: %d lines in %d chunks" % (time.time() - ctx.t0, label, n, len(chunks)))
 
     def one(k):
         d = os.path.join(ctx.work, "tv-%s-%d" % (label, k))
@@ -83,7 +84,7 @@ def _validate_file(ctx, path, chunk, label, timeout=1500):
             shutil.rmtree(d, ignore_errors=True)
         return k, v
 
-    with ThreadPoolExecutor(max_workers=max(1, min(len(chunks), 8, ctx.cores // 2))) as ex:
+    with ThreadPoolExecutor(max_workers=max(1, min(len(chunks), 8, ctx.cores))) as ex:
         for k, v in ex.map(one, range(len(chunks))):
             for kind in ("viol", "drift"):
                 for rec in v.get(kind) or []:
@@ -203,7 +204,7 @@ def run(ctx):
 
     # ---- 3. replay every exported case on the real functions (+ seeded random driver) --------------
     obs = _run_harness(ctx, {"cases_file": cases_file, "scales": T["scales"], "rot_scales": T["rot"],
-                             "random": T["random"], "workers": max(2, min(8, ctx.cores // 2))}, label="main")
+                             "random": T["random"], "workers": max(2, min(8, ctx.cores))}, label="main")
     log("t=%.0fs harness done" % (time.time() - ctx.t0))
     st = _scan(obs)
     log("t=%.0fs observation file scanned: %d lines, %d runs, %d calls" % (time.time() - ctx.t0, st["lines"], st["runs"], st["calls"]))
@@ -262,15 +263,15 @@ def run(ctx):
                 "divisible by 3; per-slot kinds absent / valid / nil / garbage / signed-for-nil-flagged-commit / other block, "
                 "part-set header, height, round, chain, vote type, timestamp / wrong signer / foreign address / duplicated "
                 "member / unknown signer / unknown flag; frames: argument and commit height/blockID mismatches, zero block id, "
-                "other chain, short/long/rotated commits) is realised with real ed25519 keys and executed on the real "
-                "VerifyCommit, VerifyCommitLight and VerifyCommitLightTrusting (11 trust levels) at power scalings 1, "
-                "floor(MaxTotalVotingPower/total) and one of 7, 3*2^20, 3*2^38, 2^52; plus %d seeded random sets of 1..8 "
+                "other chain, short/long/rotated commits; max = floor(MaxTotalVotingPower/total)) is realised with real ed25519 keys and executed on the real "
+                "VerifyCommit, VerifyCommitLight and VerifyCommitLightTrusting (11 trust levels at scaling 1, 5 at the others) "
+                "at power scalings %s plus one of %s chosen round-robin; plus %d seeded random sets of 1..8 "
                 "members with powers up to MaxTotalVotingPower tuned to sit at / next to a threshold, totals exactly at "
                 "MaxTotalVotingPower and hand-built sets just above it (panic exit), commits aligned / permuted / of other "
                 "membership. A run is one "
                 "(commit, arguments, concrete power vector); distinct by hash; non-trivial = a function got past the "
                 "argument checks or accepted" % (
-                    {1: 10, 2: 21}[T["PVTier"]], T["random"]),
+                    {1: 10, 2: 21}[T["PVTier"]], "/".join(T["scales"]), "/".join(sorted(set(T["rot"]))), T["random"]),
         "samples": st["samples"],
         "exhaustive": True,
         "tlc_runs": ctx.tlc_stats,
